@@ -19,7 +19,18 @@
    auxiliary-coordinate loop of write_skel (the step lemmas alloc_K, add_dim_K, ... are there; missing is the
    bookkeeping of role dimensions), hence the whole-skeleton statement C01_names_kept; the oracle checks the names
    of every case.  The dimension name of bounds is kept since C01-fix3-3 (superseded code: Refuted.v,
-   C01_bounds_dimension_name_old_refuted). *)
+   C01_bounds_dimension_name_old_refuted).
+
+   Third pass (RtClass.v): the model has the storage kind of a variable (numeric / char / netCDF string, decided by
+   fmt and string: vlen, skind), the writer's scalar coordinate branch for a 1-d auxiliary coordinate on an axis the
+   data do not span (write_aux, scalar_axis), the reader's rule for scalar coordinate variables (scalar_class) and
+   the reader's implied (uncompressed) dimensions for data compressed by gathering (implied, compress_of,
+   coord_candidates; the census counts list variables as referenced).  C01_scalar_coordinate_classification,
+   C01_scalar_coordinates_option_grid, C01_coordinates_skip_implied_dimensions and C01_gathered_coordinates_example
+   say that written-then-read classification is the identity there; the two seeded variants are refuted in
+   Refuted.v (C01_scalar_class_char_only_refuted, C01_coordinates_own_dimensions_refuted) with their exact guards.
+   The induction proofs (wf) still require auxiliary coordinates over data axes: the scalar string branch is covered
+   by the two theorems above and evaluated case by case (Run.check_types), not by C01_roundtrip_core. *)
 From CfdmV Require Import Common.Base C01.Model C01.Lemmas C01.RtStrings C01.RtWriter C01.RtSteps C01.RtAxis
   C01.RtPhases C01.RtSummary C01.RtReader C01.Run C01.RtGuard C01.RtNames C01.RtClass.
 
